@@ -781,6 +781,9 @@ def main():
             if not ck.thorough and (npol, nant) == (1, 2):
                 continue
             jobs.append(('job_inject', (P, taps, Wb, nsb, npol, nant, bits, 1 if nant == 2 else 2, 2, 2, None, 2, True)))
+    # arrays recorded with more than one coarse channel per antenna (row = antenna * num_chans + channel, not the transpose)
+    for bits_ in (8, 4):
+        jobs.append(('job_inject', (4, 2, 2, 1, 2, 2, bits_, 2, 2, 2, None, 2, True)))
     P, taps, Wb = 4, 2, 3
     for nsb in (1, 2, 3, 4):
         jobs.append(('job_inject', (P, taps, Wb, nsb, 2, 1, 8, 2, 3, 2, 1, 3, True)))
